@@ -180,8 +180,10 @@ func (c02) Gen(rng *rand.Rand, tier string, i int) *sim.Scenario {
 		wr.call.DelayMs = pick(rng, 150, 200, 300)
 		last := &wr.flow.Hops[len(wr.flow.Hops)-1]
 		for ri := range last.Replies {
-			if last.Replies[ri].Perturb == "" && last.Replies[ri].Garbage == "" {
-				last.Replies[ri].DelayUs = int64(wr.call.TimeoutMs)*1000 - int64(between(rng, 1, wr.call.DelayMs-wr.call.PollMs-5))*1000
+			// (inside the extra window and never before the probe itself)
+			lim := min(wr.call.DelayMs-wr.call.PollMs-5, wr.call.TimeoutMs-1)
+			if last.Replies[ri].Perturb == "" && last.Replies[ri].Garbage == "" && lim >= 1 {
+				last.Replies[ri].DelayUs = int64(wr.call.TimeoutMs)*1000 - int64(between(rng, 1, lim))*1000
 			}
 		}
 	}
